@@ -153,6 +153,7 @@ def _eval(case):
                 sc += max(abs(x) for x in c[:d])
         before = [I.comps(v.pose) for v in e.vertices]
         jacs = e.calc_jacobians()
+        held = [np.array(J, dtype=float, copy=True) for J in jacs]
         if len(jacs) != 2:
             return ["calc_jacobians returned %d matrices for a 2-vertex edge" % len(jacs)], 0.0, False, 1
         angle_idx = (2,) if (kind == "SE2" and case["edge"] == "odo") else ()
@@ -223,6 +224,14 @@ def _eval(case):
                 ratio = max(ratio, r)
                 if not r <= 1.0:
                     msgs.append("after editing the pose of vertex 0 in place (calc_error evaluated before the edit): Jacobian %d differs from the 5-point derivative at the new pose by %.3g" % (vi, dmax))
+        # the matrices handed out first are still what they were (later evaluations, also of OTHER edges, must not overwrite them)
+        if not msgs:
+            other, _ = build_edge(case)
+            np.asarray(other.vertices[0].pose)[...] = I.comps(other.vertices[1].pose) if case["edge"] == "odo" else I.comps(other.vertices[0].pose)
+            other.calc_jacobians()
+            for vi in (0, 1):
+                if not np.array_equal(np.asarray(jacs[vi], dtype=float), held[vi]):
+                    msgs.append("the Jacobian %d returned earlier was overwritten by later calc_jacobians() calls (shared result buffer)" % vi)
         return msgs, ratio, nontriv, nops
     except Exception as ex:
         return ["%s raised %s: %s" % (case["edge"], type(ex).__name__, ex)], float("inf"), False, 1
